@@ -638,6 +638,8 @@ def rule_p3(ctx):
                 rs = _reason_of(body, t)
                 if rs == {reason}:
                     raises.add(b)
+                elif label == "Op::Div" and rs == {"Overflow"}:
+                    pass  # signed MIN / -1 (C03-A1)
                 else:
                     wrong.append((b, t, rs))
             elif _is_compile_call(ctx, t) and t["dest"]["l"] == 0 and not t["dest"]["p"]:
